@@ -18,7 +18,7 @@ structure SInv (C : Array (List (Nat × Cb))) (nt ns : Nat) (s : NS) : Prop wher
   aw : ∀ u, AEv.svc u ∈ s.awaited → (dictGet s.placeDict u).isSome = true
   exc : ExcOk s.exc
 
-variable {C : Array (List (Nat × Cb))} {nt ns : Nat} {ee : EE}
+variable {P : Prog} {C : Array (List (Nat × Cb))} {nt ns : Nat} {ee : EE}
 
 /-- the helper leaves everything the invariant speaks about as it is, the exception flag included -/
 structure SameX (s s' : NS) : Prop where
@@ -88,7 +88,7 @@ theorem SInv.outOfFuel {s : NS} (h : SInv C nt ns s) : SInv C nt ns s.outOfFuel 
   unfold NS.outOfFuel
   exact ⟨h1.cbs, h1.nt, h1.ns, h1.pd, h1.aw, h1.exc⟩
 
-theorem isPloop_false_of_cbOk {cb : Cb} (h : CbOk nt ns cb) : cb.isPloop = false := by
+theorem isPloop_false_of_cbOk {cb : Cb} (h : CbOk P false nt ns cb) : cb.isPloop = false := by
   cases cb <;> simp_all [CbOk, Cb.isPloop]
 
 theorem SInv.fireT {s : NS} (h : SInv C nt ns s) (t : Nat) : SInv C nt ns (s.fireT t) := by
@@ -105,13 +105,13 @@ theorem getElem?_modify_svc (a : Array SvcApi) (i j : Nat) (f : SvcApi → SvcAp
   rw [Array.getElem?_modify]
 
 section
-variable (C nt ns ee)
+variable (P C nt ns ee)
 /-- all functions of the evaluator keep the safety invariant, at fuel `f` -/
-structure SKeeps (f : Nat) : Prop where
+structure SKeeps (f : Nat) : Prop where  -- (for the program P: the callbacks are judged by `CbOk P false`)
   evaluate : ∀ s, SInv C nt ns s → SInv C nt ns (evaluate ee f s)
   scan : ∀ n i s, SInv C nt ns s → SInv C nt ns (scan ee f n i s)
   runLive : ∀ t pos s, SInv C nt ns s → SInv C nt ns (runLive ee f t pos s)
-  runCb : ∀ cb s, CbOk nt ns cb → SInv C nt ns s → SInv C nt ns (runCb ee f cb s)
+  runCb : ∀ cb s, CbOk P false nt ns cb → SInv C nt ns s → SInv C nt ns (runCb ee f cb s)
   listenSS : ∀ i fns s, SInv C nt ns s → SInv C nt ns (listenSS ee f i fns s)
   listenSF : ∀ i fns s, SInv C nt ns s → SInv C nt ns (listenSF ee f i fns s)
   eeStarted : ∀ id s, SInv C nt ns s → SInv C nt ns (eeStarted ee f id s)
@@ -121,7 +121,7 @@ structure SKeeps (f : Nat) : Prop where
   complete : ∀ k s, SInv C nt ns s → SInv C nt ns (complete ee f k s)
   fireEv : ∀ ev s, SInv C nt ns s → SInv C nt ns (fireEv ee f ev s).2
 
-theorem skeeps_zero : SKeeps C nt ns ee 0 where
+theorem skeeps_zero : SKeeps P C nt ns ee 0 where
   evaluate s h := by simp only [Net.evaluate]; exact h.outOfFuel
   scan n i s h := by simp only [Net.scan]; exact h.outOfFuel
   runLive t pos s h := by simp only [Net.runLive]; exact h.outOfFuel
@@ -137,10 +137,10 @@ theorem skeeps_zero : SKeeps C nt ns ee 0 where
 end
 
 /-- the static hypothesis on the callbacks -/
-def COk (C : Array (List (Nat × Cb))) (nt ns : Nat) : Prop :=
-  ∀ (t : Nat) (l : List (Nat × Cb)), C[t]? = some l → ∀ c ∈ l, CbOk nt ns c.2
+def COk (P : Prog) (C : Array (List (Nat × Cb))) (nt ns : Nat) : Prop :=
+  ∀ (t : Nat) (l : List (Nat × Cb)), C[t]? = some l → ∀ c ∈ l, CbOk P false nt ns c.2
 
-theorem skeeps_succ (hC : COk C nt ns) (f : Nat) (ih : SKeeps C nt ns ee f) : SKeeps C nt ns ee (f+1) where
+theorem skeeps_succ (hC : COk P C nt ns) (f : Nat) (ih : SKeeps P C nt ns ee f) : SKeeps P C nt ns ee (f+1) where
   evaluate s h := by simp only [Net.evaluate]; exact ih.scan _ _ s h
   scan n i s h := by
     simp only [Net.scan]
@@ -429,8 +429,8 @@ theorem skeeps_succ (hC : COk C nt ns) (f : Nat) (ih : SKeeps C nt ns ee f) : SK
           · exact h.aw u (List.mem_of_mem_eraseIdx (List.mem_of_mem_drop hu'))
 
 /-- every function of the evaluator keeps the safety invariant, for every fuel -/
-theorem skeeps (hC : COk C nt ns) : ∀ f, SKeeps C nt ns ee f
-  | 0 => skeeps_zero C nt ns ee
+theorem skeeps (hC : COk P C nt ns) : ∀ f, SKeeps P C nt ns ee f
+  | 0 => skeeps_zero P C nt ns ee
   | f+1 => skeeps_succ hC f (skeeps hC f)
 
 end Pfdl.Net
